@@ -65,12 +65,23 @@ fn setup(tree: &J) -> rt::Det {
 }
 
 fn build_call(path: &str, iface: &str, member: &str, noreply: bool, args: &[J]) -> Message {
+    build_call_x(path, iface, member, noreply, 0, args)
+}
+
+/// `xflags`: bit 0 = NO_AUTO_START, bit 1 = ALLOW_INTERACTIVE_AUTHORIZATION (Rpc.tla: irrelevant to every clause)
+fn build_call_x(path: &str, iface: &str, member: &str, noreply: bool, xflags: u64, args: &[J]) -> Message {
     let mut b = Message::method_call(path, member).expect("method_call");
     if !iface.is_empty() {
         b = b.interface(iface).expect("interface");
     }
     if noreply {
         b = b.with_flags(Flags::NoReplyExpected).expect("flags");
+    }
+    if xflags & 1 != 0 {
+        b = b.with_flags(Flags::NoAutoStart).expect("flags");
+    }
+    if xflags & 2 != 0 {
+        b = b.with_flags(Flags::AllowInteractiveAuth).expect("flags");
     }
     if args.is_empty() {
         return b.build(&()).expect("build");
@@ -158,7 +169,7 @@ fn exchange(d: &mut rt::Det, m: &Message) -> (u32, Vec<J>, Vec<J>) {
 fn sent_json(m: &Message, args: &[J]) -> J {
     let h = rawmsg::parse_header(m.data()).expect("own message parses");
     json!({"path": h.path.unwrap_or_default(), "iface": h.interface.unwrap_or_default(),
-           "member": h.member.unwrap_or_default(), "sig": h.signature, "noreply": h.flags & 1 == 1, "args": args})
+           "member": h.member.unwrap_or_default(), "sig": h.signature, "noreply": h.flags & 1 == 1, "flags": h.flags, "args": args})
 }
 
 // ------------------------------------------------------------------------------------------- rpc
@@ -171,8 +182,8 @@ fn cmd_rpc(trees: &str, cases: &str, out: &str) {
         let args: Vec<J> = s["args"].as_array().unwrap().clone();
         sink::FAIL.store(c["fail"].as_bool().unwrap_or(false), Ordering::SeqCst);
         let _ = sink::take();
-        let m = build_call(s["path"].as_str().unwrap(), s["iface"].as_str().unwrap(), s["member"].as_str().unwrap(),
-                           c["noreply"].as_bool().unwrap(), &args);
+        let m = build_call_x(s["path"].as_str().unwrap(), s["iface"].as_str().unwrap(), s["member"].as_str().unwrap(),
+                             c["noreply"].as_bool().unwrap(), c["xflags"].as_u64().unwrap_or(0), &args);
         let (_serial, replies, others) = exchange(&mut d, &m);
         sink::FAIL.store(false, Ordering::SeqCst);
         let (runs, _) = handler_runs(&sink::take());
